@@ -148,3 +148,78 @@ pub fn do_command_substitution(sh: &mut shell::Shell, tokens: &mut Tokens) {
 pub fn expand_glob(tokens: &mut Tokens) {
     shell::verif::expand_glob(tokens)
 }
+
+// ---- job control: injected waitpid results -------------------------------------------------
+
+use std::cell::RefCell;
+use std::collections::VecDeque;
+
+thread_local! {
+    static WAIT_QUEUE: RefCell<VecDeque<nix::Result<nix::sys::wait::WaitStatus>>> = RefCell::new(VecDeque::new());
+    static WAIT_LOG: RefCell<Vec<String>> = RefCell::new(Vec::new());
+}
+
+/// Stands in for `nix::sys::wait::waitpid` inside `jobc::waitpidx` and `signals::handle_sigchld`
+/// (shadowing `use` under the guard): answers from the injected queue; an empty queue behaves
+/// like a process without children (ECHILD), so a replay can never block.
+pub fn waitpid<P: Into<Option<nix::unistd::Pid>>>(
+    _pid: P,
+    options: Option<nix::sys::wait::WaitPidFlag>,
+) -> nix::Result<nix::sys::wait::WaitStatus> {
+    let nohang = options.map_or(false, |o| o.contains(nix::sys::wait::WaitPidFlag::WNOHANG));
+    let r = WAIT_QUEUE.with(|q| q.borrow_mut().pop_front());
+    WAIT_LOG.with(|l| l.borrow_mut().push(format!("{}:{:?}", if nohang { "poll" } else { "block" }, r)));
+    match r {
+        Some(x) => x,
+        None => Err(nix::errno::Errno::ECHILD),
+    }
+}
+
+/// kind: 0 exited(val=status) 1 signaled(val=signal) 2 stopped 3 continued 4 still-alive 5 ECHILD
+pub fn push_wait_result(kind: i32, pid: i32, val: i32) {
+    use nix::sys::signal::Signal;
+    use nix::sys::wait::WaitStatus as WS;
+    use nix::unistd::Pid;
+    let p = Pid::from_raw(pid);
+    let r = match kind {
+        0 => Ok(WS::Exited(p, val)),
+        1 => Ok(WS::Signaled(p, Signal::try_from(val).unwrap_or(Signal::SIGKILL), false)),
+        2 => Ok(WS::Stopped(p, Signal::SIGTSTP)),
+        3 => Ok(WS::Continued(p)),
+        4 => Ok(WS::StillAlive),
+        _ => Err(nix::errno::Errno::ECHILD),
+    };
+    WAIT_QUEUE.with(|q| q.borrow_mut().push_back(r));
+}
+
+pub fn pending_wait_results() -> usize {
+    WAIT_QUEUE.with(|q| q.borrow().len())
+}
+
+pub fn insert_job(sh: &mut shell::Shell, gid: i32, pid: i32, cmd: &str, bg: bool) {
+    sh.insert_job(gid, pid, cmd, "Running", bg)
+}
+
+pub fn wait_fg_job(sh: &mut shell::Shell, gid: i32, pids: &[i32]) -> (i32, i32) {
+    let cr = crate::jobc::wait_fg_job(sh, gid, pids);
+    (cr.gid, cr.status)
+}
+
+pub fn try_wait_bg_jobs(sh: &mut shell::Shell) {
+    crate::jobc::try_wait_bg_jobs(sh, true, false)
+}
+
+/// (id, gid, pids, stopped pids (sorted), status, is_bg) sorted by id
+pub fn job_table(sh: &shell::Shell) -> Vec<(i32, i32, Vec<i32>, Vec<i32>, String, bool)> {
+    let mut v: Vec<_> = sh
+        .jobs
+        .values()
+        .map(|j| {
+            let mut st: Vec<i32> = j.pids_stopped.iter().cloned().collect();
+            st.sort();
+            (j.id, j.gid, j.pids.clone(), st, j.status.clone(), j.is_bg)
+        })
+        .collect();
+    v.sort();
+    v
+}
